@@ -98,7 +98,7 @@ theorem scanElems_step (f : Nat) (t : Bytes) (cs : List Cell) (rest : Bytes) (lf
   refine ⟨b, ty', hty, ?_⟩
   obtain ⟨h0, _, hn0, _, _, _, _, h93⟩ := ht.start
   have hhd : hd (t ++ rest) = hd t := hd_append_of_ne_nil _ _ h0
-  have hscan := ht.scan rest f prev (if pok then i else 0) true hs hf
+  have hscan := ht.scan rest f prev (if pok then acc.length else 0) true hs hf
   have hpos : t.length ≠ 0 := by
     have := List.length_pos_iff.mpr h0; omega
   have hadv : advance (t ++ rest) t.length = .ok rest := by simp [advance]
